@@ -245,6 +245,7 @@ class RealWorld(object):
     self.worker = None
     self.on_spawn = None
     self.greenlets = []
+    self.livelock = False
 
   def activate(self):
     _CUR[0] = self
@@ -312,8 +313,15 @@ class RealWorld(object):
     gevent.sleep(0)
 
   def settle(self):
+    """Runs the hub until nothing is runnable.  A greenlet that stays runnable for 2 s of real time without any
+    clock advance is a livelock: flagged, never waited for."""
     import gevent
-    gevent.idle()
+    if self.livelock:
+      return
+    with gevent.Timeout(2.0, False):
+      gevent.idle()
+      return
+    self.livelock = True
 
   def advance_to(self, t, on_time=None):
     self.settle()
@@ -336,6 +344,6 @@ class RealWorld(object):
   def close(self):
     import gevent
     gs = [g for g in [self.worker] + self.greenlets if g is not None]
-    gevent.killall(gs, block=True)
+    gevent.killall(gs, block=True, timeout=2.0)
     if _CUR[0] is self:
       _CUR[0] = None
